@@ -323,7 +323,8 @@ pub fn run(_args: &[String]) {
                     ("ntt120avx", false) => consume::<NTT120Avx>(p[0] as usize, p[1] as usize, p[2] as usize),
                     _ => "bad-be".into(),
                 });
-                r.unwrap_or_else(|e| format!("panic:{}", panic_class(&e)))
+                // the only panics of allocation + accessors are their assertions
+                r.unwrap_or_else(|_| "panic:assert".to_string())
             }
             "canary" => {
                 let n = kv(&t, "n").and_then(|x| x.parse().ok()).unwrap_or(8usize);
